@@ -93,7 +93,7 @@ T = {
 }
 
 
-UNFINISHED = {"C09"}
+UNFINISHED = set()
 
 
 def main():
